@@ -21,6 +21,7 @@ import (
 // pipe with a scripted raw-XML peer on the other end.
 type E2 struct {
 	rc        *RC
+	tag       string
 	tornDown  bool
 	Sess      *xmpp.Session
 	SUT, Peer *simnet.Conn
@@ -50,6 +51,7 @@ type E2Opts struct {
 	Recv  bool // the session under test is the receiving entity (ReceiveSession); the scripted peer initiates (TCP framing only)
 	Plain bool // transport without deadlines (plain io.ReadWriter)
 	Chunk bool // short reads on both ends
+	Tag   string // suffix for the names of this session's connections and tasks (a second session in one run)
 	Comp  bool // component protocol (XEP-0114): the session is established with component.NewSession, content namespace jabber:component:accept
 }
 
@@ -60,7 +62,8 @@ const nsStream = "http://etherx.jabber.org/streams"
 // stream header and an empty feature list.
 func (rc *RC) NewE2(o E2Opts) *E2 {
 	e := &E2{rc: rc, Server: o.S2S, WS: o.WS}
-	e.SUT, e.Peer = rc.Net.Pipe("sut", "peer")
+	e.SUT, e.Peer = rc.Net.Pipe("sut"+o.Tag, "peer"+o.Tag)
+	e.tag = o.Tag
 	e.Ctx, e.Cancel = context.WithCancel(context.Background())
 	rc.OnCleanup(func() { e.tornDown = true; e.Cancel(); e.SUT.Close(); e.Peer.Close() })
 	if o.Chunk {
@@ -99,7 +102,7 @@ func (rc *RC) NewE2(o E2Opts) *E2 {
 	if o.WS {
 		neg = websocket.Negotiator(cfgf)
 	}
-	sutT := rc.Spawn("establish", func() {
+	sutT := rc.Spawn("establish"+o.Tag, func() {
 		if o.Recv {
 			e.Sess, e.EstErr = xmpp.ReceiveSession(e.Ctx, rw, state, neg)
 			return
@@ -110,7 +113,7 @@ func (rc *RC) NewE2(o E2Opts) *E2 {
 		}
 		e.Sess, e.EstErr = xmpp.NewSession(e.Ctx, e.Remote, e.Local, rw, state, neg)
 	})
-	peerT := rc.Spawn("peer-establish", func() {
+	peerT := rc.Spawn("peer-establish"+o.Tag, func() {
 		if o.Recv {
 			// the scripted initiator speaks first; a server-to-server initiator that names itself is refused by
 			// ReceiveSession (see DESIGN), so it only says whom it wants to talk to
@@ -183,7 +186,7 @@ func (e *E2) HeaderLen() int {
 
 // Serve runs Session.Serve as a task.
 func (e *E2) Serve(h xmpp.Handler) *simrt.Task {
-	return e.rc.Spawn("serve", func() {
+	return e.rc.Spawn("serve"+e.tag, func() {
 		err := e.Sess.Serve(h)
 		e.ServeErr, e.ServeDone = err, true
 		e.ServeRetStep, e.ServeRetTime = e.rc.S.Steps, e.rc.S.Now()
